@@ -192,10 +192,18 @@ func c08Frame(t *rapid.T, w gen.World) ([]byte, int, string) {
 		v6 = false
 		return udp(67, 68, gen.DHCPPayload(t, w), [4]byte{255, 255, 255, 255}), 1, class
 	case "icmp4":
-		return ref.Eth(w.HostMAC, cl, 0x0800, ref.IP4(ref.IP4Hdr{TotalLen: -1, TTL: 64, Proto: 1, Checksum: -1, Src: src4, Dst: w.HostIP.As4()}, gen.ICMP4Message(t, w))), 1, class
+		msg := gen.ICMP4Message(t, w)
+		if rapid.IntRange(0, 7).Draw(t, "crossFamily") == 0 { // protocol 1 in an IPv6 packet: Parse classifies by protocol number alone
+			return ref.Eth(w.HostMAC, cl, 0x86dd, ref.IP6(ref.IP6Hdr{PayloadLen: -1, Next: 1, HopLimit: 64, Src: lla, Dst: w.HostLLA.As16()}, msg)), 1, "icmp4-in-ip6"
+		}
+		return ref.Eth(w.HostMAC, cl, 0x0800, ref.IP4(ref.IP4Hdr{TotalLen: -1, TTL: 64, Proto: 1, Checksum: -1, Src: src4, Dst: w.HostIP.As4()}, msg)), 1, class
 	case "icmp6":
 		dst := netip.MustParseAddr("ff02::1").As16()
-		return ref.Eth(ref.MAC{0x33, 0x33, 0, 0, 0, 1}, cl, 0x86dd, ref.IP6(ref.IP6Hdr{PayloadLen: -1, Next: 58, HopLimit: 255, Src: lla, Dst: dst}, gen.ICMP6Message(t, lla, dst))), 4, class
+		msg := gen.ICMP6Message(t, lla, dst)
+		if rapid.IntRange(0, 7).Draw(t, "crossFamily") == 0 { // protocol 58 in an IPv4 packet
+			return ref.Eth(w.HostMAC, cl, 0x0800, ref.IP4(ref.IP4Hdr{TotalLen: -1, TTL: 255, Proto: 58, Checksum: -1, Src: src4, Dst: w.HostIP.As4()}, msg)), 4, "icmp6-in-ip4"
+		}
+		return ref.Eth(ref.MAC{0x33, 0x33, 0, 0, 0, 1}, cl, 0x86dd, ref.IP6(ref.IP6Hdr{PayloadLen: -1, Next: 58, HopLimit: 255, Src: lla, Dst: dst}, msg)), 4, class
 	case "dns":
 		m := gen.DNSMsg(t, gen.DNSOptions{Response: rapid.IntRange(0, 4).Draw(t, "resp") != 0})
 		b, _, _ := m.Encode(rapid.IntRange(0, 2).Draw(t, "compress"))
@@ -339,27 +347,29 @@ func TestC08(t *testing.T) {
 		}
 	})
 
-	drv.Prop(t, rec, "decoders", 40000, 800000, func(t *rapid.T) c08Case {
-		dec := rapid.SampledFrom(c08Decoders).Draw(t, "decoder")
-		var b []byte
-		switch dec {
-		case "DecodeQuestion", "DecodeAnswers":
-			m := gen.DNSMsg(t, gen.DNSOptions{Response: true, MDNS: rapid.Bool().Draw(t, "mdns")})
-			b, _, _ = m.Encode(rapid.IntRange(0, 2).Draw(t, "compress"))
-			if rapid.IntRange(0, 1).Draw(t, "corrupt") == 0 {
-				b, _ = gen.CorruptDNS(t, b)
-			}
-		case "RA.Options":
-			b = w.ViewBytes(t, "ICMP6RouterAdvertisement")
-		case "RS.Options":
-			b = w.ViewBytes(t, "ICMP6RouterSolicitation")
-		case "HopByHop":
-			b = w.ViewBytes(t, "HopByHopExtensionHeader")
-		case "DHCP4.ParseOptions":
-			b = w.ViewBytes(t, "DHCP4")
-		case "LLDP":
-			b = w.ViewBytes(t, "LLDP")
+	drv.Prop(t, rec, "decoders", 40000, 800000, func(t *rapid.T) c08Case { return genC08Decoder(t, w) }, func(tb drv.TB, c c08Case) { c08RunDecoder(tb, rec, "decoders", c) })
+}
+
+func genC08Decoder(t *rapid.T, w gen.World) c08Case {
+	dec := rapid.SampledFrom(c08Decoders).Draw(t, "decoder")
+	var b []byte
+	switch dec {
+	case "DecodeQuestion", "DecodeAnswers":
+		m := gen.DNSMsg(t, gen.DNSOptions{Response: true, MDNS: rapid.Bool().Draw(t, "mdns")})
+		b, _, _ = m.Encode(rapid.IntRange(0, 2).Draw(t, "compress"))
+		if rapid.IntRange(0, 1).Draw(t, "corrupt") == 0 {
+			b, _ = gen.CorruptDNS(t, b)
 		}
-		return c08Case{Data: b, Dec: dec}
-	}, func(tb drv.TB, c c08Case) { c08RunDecoder(tb, rec, "decoders", c) })
+	case "RA.Options":
+		b = w.ViewBytes(t, "ICMP6RouterAdvertisement")
+	case "RS.Options":
+		b = w.ViewBytes(t, "ICMP6RouterSolicitation")
+	case "HopByHop":
+		b = w.ViewBytes(t, "HopByHopExtensionHeader")
+	case "DHCP4.ParseOptions":
+		b = w.ViewBytes(t, "DHCP4")
+	case "LLDP":
+		b = w.ViewBytes(t, "LLDP")
+	}
+	return c08Case{Data: b, Dec: dec}
 }
